@@ -109,6 +109,7 @@ func propComplete(t *rapid.T, c *cx) {
 	}
 	key := fmt.Sprintf("%s size=%d %s tau=%s p=%s z=%s", c.name, size, s.Kind, hx(s.Tau), hxs(p), hx(z))
 	cls = append(cls, scls, sizeClass(size), "honest:single")
+	cls = append(cls, purityCls()...)
 	rep.Case("C11_Complete/"+c.name, key, nt, dedup(cls)...)
 }
 
@@ -313,10 +314,28 @@ func (c *cx) batchOpen(t fataler, s *srsT, ps [][]*big.Int, z *big.Int, data [][
 	return h
 }
 
-func (c *cx) drawBatchInput(t *rapid.T, s *srsT, nmax int) (ps [][]*big.Int, z *big.Int, cls []string, nt bool) {
+// bigBatches: batch sizes around the thresholds at which implementations switch strategy (blocks of 16
+// in the vector kernels, MSM window choices at 32/64 points).
+var bigBatches = []int{15, 16, 17, 31, 32, 33, 64}
+
+// drawBatchCount draws a batch size in 1..nmax, or with probability 1/bigOneIn (0: never) one of bigBatches.
+func drawBatchCount(t *rapid.T, nmax, bigOneIn int, label string) int {
+	if bigOneIn > 0 && rapid.IntRange(0, bigOneIn-1).Draw(t, label+"big") == 0 {
+		return rapid.SampledFrom(bigBatches).Draw(t, label)
+	}
+	return rapid.IntRange(1, nmax).Draw(t, label)
+}
+
+func (c *cx) drawBatchInput(t *rapid.T, s *srsT, nmax, bigOneIn int) (ps [][]*big.Int, z *big.Int, cls []string, nt bool) {
 	size := s.S.Size()
-	nb := rapid.IntRange(1, nmax).Draw(t, "nb")
+	nb := drawBatchCount(t, nmax, bigOneIn, "nb")
 	n := drawLen(t, size, "len")
+	if nb >= 15 && n > 4 && n != size { // many polynomials: keep them tiny (full-size ones only on small SRS)
+		n = 1 + n%4
+	}
+	if nb >= 15 && n > 16 {
+		n = 3
+	}
 	z, zcls := c.point(t, s.Tau, "z")
 	cls = []string{lenClass(n, size), "z:" + zcls, fmt.Sprintf("batch:%d", nb)}
 	nt = nb >= 2 || n == 1 || n == size || z.Cmp(s.Tau) == 0
@@ -348,6 +367,9 @@ func (c *cx) drawBatchInput(t *rapid.T, s *srsT, nmax int) (ps [][]*big.Int, z *
 	if nb >= 2 {
 		cls = append(cls, "batch>=2")
 	}
+	if nb >= 16 {
+		cls = append(cls, "batch>=16")
+	}
 	return
 }
 
@@ -356,7 +378,7 @@ func (c *cx) drawBatchInput(t *rapid.T, s *srsT, nmax int) (ps [][]*big.Int, z *
 func propBatch(t *rapid.T, c *cx) {
 	size := drawSize(t, rep.Scale(64, 1024))
 	s, scls := c.newSRS(t, size, true)
-	ps, z, cls, nt := c.drawBatchInput(t, s, 8)
+	ps, z, cls, nt := c.drawBatchInput(t, s, 8, 4)
 	hname := c.drawHash(t)
 	if hname == "mimc" {
 		// MiMC absorbs canonical fr blocks only: a digest whose encoding has a 32-byte block >= r (the
@@ -391,6 +413,7 @@ func propBatch(t *rapid.T, c *cx) {
 	}
 	key := fmt.Sprintf("%s batch size=%d %s tau=%s z=%s ps=%v data=%x", c.name, size, s.Kind, hx(s.Tau), hx(z), polysKey(ps), data)
 	cls = append(cls, scls, sizeClass(size), "honest:batch", fmt.Sprintf("data:%d", len(data)), "hash:"+hname)
+	cls = append(cls, purityCls()...)
 	rep.Case("C11_Batch/"+c.name, key, nt, dedup(cls)...)
 }
 
@@ -487,14 +510,23 @@ func propMulti(t *rapid.T, c *cx) {
 	size := drawSize(t, 64)
 	s, scls := c.newSRS(t, size, true)
 	n := rapid.IntRange(1, 6).Draw(t, "n")
+	if rapid.IntRange(0, 7).Draw(t, "nbig") == 0 {
+		n = rapid.SampledFrom([]int{15, 16, 17}).Draw(t, "n")
+	}
 	zs, zcl := c.distinctPoints(t, s.Tau, n)
 	var ds []inst.KPoint
 	var prs []inst.KProof
 	cls := []string{scls, sizeClass(size), fmt.Sprintf("multi:%d", n), "honest:multi"}
+	if n >= 16 {
+		cls = append(cls, "batch>=16")
+	}
 	key := fmt.Sprintf("%s multi size=%d %s tau=%s", c.name, size, s.Kind, hx(s.Tau))
 	nt := n >= 2
 	for i := 0; i < n; i++ {
 		ln := drawLen(t, size, fmt.Sprintf("len%d", i))
+		if n >= 15 && ln > 4 {
+			ln = 1 + ln%4
+		}
 		p, pc := c.drawPoly(t, ln, fmt.Sprintf("p%d", i))
 		if rapid.IntRange(0, 4).Draw(t, "root") == 0 {
 			p = c.withRoot(s.E, p, zs[i])
